@@ -437,6 +437,37 @@ def _nested(case, ctx):
             good = len(after) == len(before) and all((n2 == n1 and (c2 is new if n1 == cname else c2 is c1)) for (n1, c1), (n2, c2) in zip(before, after))
             ctx.check("nested.replace", good and est.get_params(deep=True)[path] is new, "nested:replace:component-not-replaced-by-name",
                       "set_params(name=estimator) did not replace exactly that component", path=path)
+        # whole list and a component replacement in ONE call: documented order is whole list first, then replacement by (new) name
+        est2 = zoo.build(spec)
+        tops2 = [(p, o, a, n, c) for p, o, a, n, c in _walk(est2) if a is not None and "__" not in p]
+        if tops2:
+            _, owner2, attr2, _, _ = tops2[0]
+            old_list = list(getattr(owner2, attr2))
+            renamed = [("r%d_%s" % (i, n), c) for i, (n, c) in enumerate(old_list)]
+            is_fc = isinstance(old_list[-1][1], BaseForecaster)
+            repl = NaiveForecaster(strategy="drift") if is_fc else LogTransformer()
+            tgt = renamed[-1][0] if is_fc else renamed[0][0]
+            if not isinstance(dict(renamed)[tgt], BaseForecaster) and is_fc:
+                tgt = renamed[-1][0]
+            try:
+                est2.set_params(**{attr2: list(renamed), tgt: repl})
+                now = list(getattr(est2, attr2))
+                good = [n for n, _ in now] == [n for n, _ in renamed] and dict(now)[tgt] is repl and not hasattr(est2, tgt)
+                ctx.check("nested.replace", good, "nested:replace:list-and-component-in-one-call", "set_params(list=..., name=estimator) did not install the list first and then "
+                          "replace the component of that list by name", names=[n for n, _ in now], target=tgt, replaced=dict(now).get(tgt) is repl, stray_attribute=hasattr(est2, tgt))
+            except Exception as e:  # noqa
+                ctx.check("nested.replace", False, "nested:replace:list-and-component-in-one-call-raises-%s" % type(e).__name__, "set_params(list=..., name=estimator) raised %r" % e)
+            est3 = zoo.build(spec)
+            owner3 = est3
+            stale = old_list[0][0]
+            try:
+                est3.set_params(**{attr2: [("r%d_%s" % (i, n), c) for i, (n, c) in enumerate(getattr(owner3, attr2))], stale: repl})
+            except ValueError:
+                ctx.check("unknown-param", True, "")
+            except Exception as e:  # noqa
+                ctx.check("unknown-param", False, "nested:set:stale-component-name-raises-%s" % type(e).__name__, "a component name that no longer exists raised %s" % type(e).__name__)
+            else:
+                ctx.check("unknown-param", False, "nested:set:stale-component-name-accepted", "a component name that only existed in the replaced list was accepted", name=stale)
     else:
         ctx.seen("nested.replace", 0)
     ctx.event(spec=zoo.describe(spec), components=len(comps))
